@@ -201,6 +201,7 @@ def g1(self):
 def g2(self):
     return self.vals["g2"]
 '''
+RENDERINGS["states-enum-instance"] = RENDERINGS["states-enum"].replace("final=Letters.d)", "final=Letters.d, use_enum_instance=True)")
 # an any() event declared before one of the states it must cover
 RENDERINGS["any-before-later-state"] = '''
 a = State(initial=True); b = State(); d = State(final=True)
@@ -298,7 +299,7 @@ BUDGET = {
 }
 BOUNDS = {
     "quick": "one abstract machine (4 states incl. a final one; 6 events; two candidates for (a,go) and (b,halt), cond and unless guards, a self transition, one "
-    "transition bound to two events, `halt` from every non-final state next to an explicit guarded transition to the same target) rendered in 16 styles (an any() event declared above a state it must cover; one event id attached in two styles inside one class body; on_transition / on_exit_state traces compared as well; (guards also attached with @transition.cond / @event.unless decorators; the enum has an alias; a from_.any(unless=...) event): a.to(b), "
+    "transition bound to two events, `halt` from every non-final state next to an explicit guarded transition to the same target) rendered in 17 styles (States.from_enum with and without use_enum_instance; an any() event declared above a state it must cover; one event id attached in two styles inside one class body; on_transition / on_exit_state traces compared as well; (guards also attached with @transition.cond / @event.unless decorators; the enum has an alias; a from_.any(unless=...) event): a.to(b), "
     "b.from_(a), multi-source from_(a,b,c) + to.itself(), from_.any(), event='id' / 'id id' / [ids] on the transition, id-less Event() objects passed by reference "
     "(single and in a list), Event(transitions, name=/id=), decorator-declared events, both associations of | and |=, States({...}), States.from_enum, base class + "
     "subclass; each compared with the reference rendering on states, events, allowed_events in every state, and one step from every state on every event and an "
@@ -354,7 +355,10 @@ def run(ctx, params):
             sm = cls()
             sm.seen = []
             sm.vals = vals
-            sm.current_state_value = cur if style != "states-enum" or cls is ref else Letters[cur].value
+            if cls is ref or style not in ("states-enum", "states-enum-instance"):
+                sm.current_state_value = cur
+            else:
+                sm.current_state_value = Letters[cur].value if style == "states-enum" else Letters[cur]
         allowed = sorted({str(e) for e in sm.allowed_events})
         try:
             r = sm.send(ev)
